@@ -172,6 +172,8 @@ def scriptedBs (c : Cfg) (s : St) : Nat := c.bs.getD (min s.bsI (c.bs.length - 1
 
 /-- The locked region of `dispatch_one_batch`, given the batch size. -/
 def dispatchLocked (c : Cfg) (fromOrig : Bool) (bs : Nat) (s : St) : St × Bool :=
+  -- `if self._aborting: return False` re-checked with the lock held
+  if s.aborting then (s, false) else
   match s.ready with
   | tasks :: rest =>
     if tasks.length = 0 then ({ s with ready := rest }, false)
@@ -380,7 +382,7 @@ def retrieveLoop (c : Cfg) : Nat → St → Gen → St × Gen × Out
     | v :: r => ({ s with nbConsumed := s.nbConsumed + 1 }, { g with buf := r, phase := .retrieve }, .value v)
     | [] =>
       -- `while self._wait_retrieval():`
-      if !(s.iterating || s.nCompleted < s.nDispTasks) then
+      if !(s.aborting || s.iterating || s.nCompleted < s.nDispTasks) then
         let (s, rem) := finallyBlock s
         tailLoop (fuel + rem.length + 1) s { g with phase := .tail, remaining := rem }
       else if s.aborting then
@@ -455,11 +457,14 @@ def callStart (c : Cfg) (fuel : Nat) (base : Nat) (spec : CallSpec) (s : St) : S
   -- `_reset_run_tracking`
   if s.running then (s, some .runtime)
   else
-    let s := { s with running := true, nDispBatches := 0, nDispTasks := 0, nCompleted := 0, nbConsumed := 0,
+    -- the new call id is drawn in the same critical section as `_running = True`
+    let s := { s with running := true, callCtr := s.callCtr + 1, callId := s.callCtr + 1 }
+    let s := { s with nDispBatches := 0, nDispTasks := 0, nCompleted := 0, nbConsumed := 0,
                       exception := false, aborting := false, aborted := false }
     let s := if !s.managed then hook c false (ev s "configure") else s
     if s.hung then (s, none) else
-    let s := { s with callCtr := s.callCtr + 1, callId := s.callCtr + 1 }
+    -- `self._ready_batches = queue.Queue()`: look-ahead batches of an interrupted earlier call are discarded
+    let s := { s with ready := [] }
     let s := ev s "start_call"
     -- `iterator = iter(iterable)`: from here on the input of THIS call is what `_original_iterator` refers to
     let s := { s with calling := true, base := base, spec := spec, srcPos := 0, srcDead := false }
@@ -483,16 +488,30 @@ def drain (c : Cfg) : Nat → Nat → St → Gen → List Nat → St × Gen × L
     | (s, g, .value v) => drain c n fuel s g (acc ++ [v])
     | (s, g, o) => (s, g, acc, o)
 
-/-- One call of the scenario in list mode. -/
-def runCallList (c : Cfg) (fuel : Nat) (base : Nat) (spec : CallSpec) (s : St) : St :=
+/-- How a list-mode call ends. -/
+inductive CallOutcome where
+  | ret (vals : List Nat)
+  | raised (e : Exc)
+  | hung
+deriving DecidableEq, Repr, Inhabited
+
+/-- One call in list mode: `Parallel.__call__` with `return_as='list'`. -/
+def callList (c : Cfg) (fuel : Nat) (base : Nat) (spec : CallSpec) (s : St) : St × CallOutcome :=
   match callStart c fuel base spec s with
-  | (s, some e) => ev s ("raise " ++ excStr e)
+  | (s, some e) => (s, .raised e)
   | (s, none) =>
-    if s.hung then s else
+    if s.hung then (s, .hung) else
     match drain c fuel fuel s {} [] with
-    | (s, _, acc, .stop) => ev s ("ret " ++ idsStr acc)
-    | (s, _, _, .raise e) => ev s ("raise " ++ excStr e)
-    | (s, _, _, _) => s
+    | (s, _, acc, .stop) => (s, .ret acc)
+    | (s, _, _, .raise e) => (s, .raised e)
+    | (s, _, _, _) => (s, .hung)
+
+/-- One call of the scenario in list mode, with its outcome logged. -/
+def runCallList (c : Cfg) (fuel : Nat) (base : Nat) (spec : CallSpec) (s : St) : St :=
+  match callList c fuel base spec s with
+  | (s, .ret acc) => ev s ("ret " ++ idsStr acc)
+  | (s, .raised e) => ev s ("raise " ++ excStr e)
+  | (s, .hung) => s
 
 /-- A nested `par(iter(()))` issued by the consumer while the first generator is still alive (op 4), drained. -/
 def recall (c : Cfg) (fuel : Nat) (s : St) : St :=
